@@ -80,6 +80,56 @@ class BuildError(Exception):
     pass
 
 
+def build_threads(caps=(1, 2, 8)):
+    """Build the TSan thread harness (harness/threads.c) from the working tree; {cap: path}."""
+    h = file_hash(os.path.join(REPO, "src/cat.c"), os.path.join(REPO, "src/cat.h"),
+                  os.path.join(VERIF, "harness/threads.c"))
+    d = os.path.join(CACHE, "threads-" + h)
+    out = {}
+    with Lock("threads"):
+        os.makedirs(d, exist_ok=True)
+        procs = []
+        for cap in caps:
+            exe = os.path.join(d, "threads%d" % cap)
+            out[cap] = exe
+            if os.path.exists(exe):
+                continue
+            cmd = ["gcc", "-O1", "-g", "-fsanitize=thread", "-fno-omit-frame-pointer",
+                   "-DCAT_UNSOLICITED_CMD_BUFFER_SIZE=%d" % cap, "-I", os.path.join(REPO, "src"),
+                   os.path.join(VERIF, "harness/threads.c"), os.path.join(REPO, "src/cat.c"),
+                   "-o", exe + ".tmp", "-lpthread"]
+            procs.append((exe, subprocess.Popen(cmd, stdout=subprocess.PIPE, stderr=subprocess.STDOUT, text=True)))
+        for exe, p in procs:
+            o, _ = p.communicate()
+            if p.returncode != 0:
+                raise BuildError("thread harness build failed:\n" + o)
+            os.replace(exe + ".tmp", exe)
+        for n in os.listdir(CACHE):
+            pth = os.path.join(CACHE, n)
+            if n.startswith("threads-") and n != "threads-" + h and time.time() - os.path.getmtime(pth) > 6 * 3600:
+                shutil.rmtree(pth, ignore_errors=True)
+    return out
+
+
+def run_threads(bins, configs, jobs=4):
+    """configs: [(cap, producers, per_producer, seed, mutex)]; returns list of dicts
+    {cmd, line, races, mismatch, rc, stderr}.  Few jobs at a time: the point is contention inside
+    each run, not between runs."""
+    from concurrent.futures import ThreadPoolExecutor
+    env = dict(os.environ, TSAN_OPTIONS="exitcode=66 halt_on_error=0 report_signal_unsafe=0")
+
+    def one(c):
+        cap, np_, n, seed, mx = c
+        cmd = [bins[cap], str(np_), str(n), str(seed), str(mx)]
+        p = subprocess.run(cmd, stdout=subprocess.PIPE, stderr=subprocess.PIPE, text=True, env=env, timeout=600)
+        line = (p.stdout.strip().splitlines() or [""])[-1]
+        return {"cmd": "threads%d %d %d %d %d" % (cap, np_, n, seed, mx), "line": line,
+                "races": p.stderr.count("WARNING: ThreadSanitizer"), "mismatch": "result=ok" not in line,
+                "rc": p.returncode, "stderr": p.stderr[-4000:]}
+    with ThreadPoolExecutor(max_workers=jobs) as ex:
+        return list(ex.map(one, configs))
+
+
 def lake_build(targets=("CatVerif", "catdrv")):
     """lake build under a lock; returns (ok, output)."""
     with Lock("lake"):
